@@ -1,9 +1,14 @@
 SPECIFICATION PSpec
 CONSTANTS
-  RunTypes = {"r_arg_base", "r_usa_nw", "r_dji_res", "r_wor", "r_bad"}
+  RunTypes = {"r_arg_base", "r_usa_nw", "r_dji_res", "r_wor", "r_bad", "r_alb_kf", "r_arg_kf", "r_arg_herd"}
   Failing = {"r_bad"}
+  Patched = {"r_alb_kf"}
+  Overriding = {"r_arg_herd"}
+  CountryOf <- CountryTab
+  OptOf <- OptTab
+  TablePos <- PosTab
   MaxLen = 3
-  ReadsBeforeSet = TRUE
+  Broken = "ReadsBeforeSet"
   Emit = FALSE
   Countries <- C4
   Pop <- PopTab
@@ -11,4 +16,3 @@ CONSTANTS
   RatioAssignments <- FewAssignments
 CHECK_DEADLOCK FALSE
 INVARIANT HistoryIndependent
-INVARIANT ResultDependsOnlyOnRun
